@@ -11,6 +11,9 @@ out=/verif/seeded/REGRESSION.txt
 : > "$out.tmp"
 for d in seeded/*/; do
   id=$(basename "$d"); prop=${id%%-*}
+  # the check named by the seed's detection command (a few changes are caught by another property's check)
+  alt=$(python3 -c "import json,re;c=json.load(open('$d/meta.json'))['detection']['command'];m=re.search(r'patch.diff (C[0-9]+)',c);print(m.group(1) if m else '')" 2>/dev/null)
+  [ -n "$alt" ] && prop=$alt
   if [ $# -gt 0 ]; then ok=0; for p in "$@"; do case "$id" in $p*) ok=1;; esac; done; [ $ok = 1 ] || continue; fi
   [ -f "$d/patch.diff" ] || continue
   if ! git -C "$S" apply --check "$PWD/$d/patch.diff" 2>/dev/null; then echo "$id NOAPPLY" | tee -a "$out.tmp"; continue; fi
